@@ -106,7 +106,8 @@ def job_random(args):
         n = rnd.randrange(2, 13)
         hi = rnd.choice([3, 16, 4096])
         npairs = n * (n - 1) // 2
-        mat = sym(n, [rnd.randrange(0, hi + 1) for _ in range(npairs)])
+        lo = rnd.choice([0, 0, -hi])            # costs AND rewards: signed entries, exact zeros included
+        mat = sym(n, [rnd.randrange(lo, hi + 1) for _ in range(npairs)])
         for mode in (0, 1):
             out.append(call_partition(n, mat, mode, scale=1024, junk=rnd.choice([0, 0, 5, -5])))
             out.append(call_segmentation(n, mat, mode, scale=1024, glob=rnd.random() < 0.5))
@@ -114,9 +115,9 @@ def job_random(args):
     return out
 
 
-def mc_cfg(n, vals, legacy=False):
-    return ("SPECIFICATION Spec\nCONSTANTS\n  N = %d\n  Vals = {%s}\n  Legacy = %s\n  Mode = \"mc\"\nINVARIANT AlgoOptimal\n"
-            "CHECK_DEADLOCK FALSE\n" % (n, ", ".join(map(str, vals)), "TRUE" if legacy else "FALSE"))
+def mc_cfg(n, vals, legacy=False, shift=0):
+    return ("SPECIFICATION Spec\nCONSTANTS\n  N = %d\n  Vals = {%s}\n  Shift = %d\n  Legacy = %s\n  Mode = \"mc\"\nINVARIANT AlgoOptimal\n"
+            "CHECK_DEADLOCK FALSE\n" % (n, ", ".join(map(str, vals)), shift, "TRUE" if legacy else "FALSE"))
 
 
 def run(ctx):
@@ -127,7 +128,7 @@ def run(ctx):
                 "dyadic real-valued matrices to n = 12; each returned list judged by AcceptPartition against the enumeration of "
                 "all 2^(n-2) lists. Non-trivial = distinct (matrix, direction) with n >= 4 whose entries are not all equal.")
     ctx.assumptions += ["a matrix of shape (n+1) x (n+1) addresses candidates 0..n-1 (last row/column is padding, as produced by optimalSegmentation)",
-                        "real-valued costs are dyadic (k/1024) so that float sums are exact and ties are real ties",
+                        "real-valued costs are dyadic (k/1024, signed) so that float sums are exact and ties are real ties",
                         "n >= 2"]
     for n in (2, 3, 4, 5):
         c = ctx.write_cfg("OP%d.cfg" % n, mc_cfg(n, [0, 1, 2]))
@@ -137,6 +138,8 @@ def run(ctx):
         ctx.tlc_mc("OptPartition", c, label="DP = brute force, n=6 over {0,1}")
         c = ctx.write_cfg("OP7.cfg", mc_cfg(7, [0, 1]))
         ctx.tlc_mc("OptPartition", c, label="DP = brute force, n=7 over {0,1}", timeout=3000)
+    for n in (3, 4) if quick else (3, 4, 5):        # signed entries {-1, 0, 1}: costs and rewards mixed, exact zeros
+        ctx.tlc_mc("OptPartition", ctx.write_cfg("OPs%d.cfg" % n, mc_cfg(n, [0, 1, 2], shift=1)), label="DP = brute force, n=%d over {-1,0,1}" % n)
     c = ctx.write_cfg("OPL.cfg", mc_cfg(4, [0, 1, 2], legacy=True))
     ctx.tlc_mc("OptPartition", c, label="self-test: pinned mode tests refuted", expect_violation="AlgoOptimal")
 
@@ -145,6 +148,9 @@ def run(ctx):
     for n in (2, 3, 4, 5):
         for first in (0, 1, 2):
             jobs.append((job_family, (n, [0, 1, 2], first, 1)))
+    for n in (3, 4, 5):                               # signed families (every matrix over {-1,0,1}; n = 5 strided in the quick tier)
+        for first in (-1, 0, 1):
+            jobs.append((job_family, (n, [-1, 0, 1], first, (7 if quick else 1) if n == 5 else 1)))
     for first in (0, 1):
         jobs.append((job_family, (6, [0, 1], first, 5 if quick else 1)))
     per = 30 if quick else 1000
